@@ -36,7 +36,7 @@ ASSUMPTIONS = [
     "no other live node has taken over a serialized id at deserialization time (alive-subsets arise from dropping handles / detaching whole trees)",
     "Any-typed properties, NaN/inf, lone surrogates and ints beyond 64 bits are outside the generator",
 ]
-MUST_SEE = ["payload_read_again", "equal_but_distinct_source_objects", "subclass_clear_registry_calls", "union_field_non_first_member", "other_dialect_call_before_roundtrip", "recreated_with_suffix_id", "shared_subtrees", "fresh_process_cases", "subforest_alive", "none_alive", "all_alive", "multi_origin", "hostile_strings", "index_sources", "yaml", "msgpck", "json", "failed_call_before_roundtrip"]
+MUST_SEE = ["user_dialect_roundtrips", "payload_read_again", "equal_but_distinct_source_objects", "subclass_clear_registry_calls", "union_field_non_first_member", "other_dialect_call_before_roundtrip", "recreated_with_suffix_id", "shared_subtrees", "fresh_process_cases", "subforest_alive", "none_alive", "all_alive", "multi_origin", "hostile_strings", "index_sources", "yaml", "msgpck", "json", "failed_call_before_roundtrip"]
 CONFIG = {
     "quick": {"shards": 16, "trees": 60, "fresh": 6, "watchdog_s": 600},
     "thorough": {"shards": 32, "trees": 400, "fresh": 60, "watchdog_s": 3400},
@@ -332,6 +332,35 @@ def run_shard(ctx):
                 t.detach()
             del res, keep, alive_objs, twins
             collect()
+    # ---- the documented mashumaro_dialect argument of as_dict / as_obj and to_yaml / from_yaml (no other options given)
+    if ctx.only_case is None:
+        from mashumaro.dialect import Dialect as _Dialect
+
+        Color = U.module.__dict__[f"{P}Color"]
+
+        class ByName(_Dialect):
+            serialization_strategy = {Color: {"serialize": lambda x: "color:" + x.name, "deserialize": lambda s_: Color[s_.split(":", 1)[1]]}}
+
+        for k, member in enumerate(Color):
+            for ser, de in (("as_dict", "as_obj"), ("to_yaml", "from_yaml")):
+                mix = U.cls[f"{P}Mix"](e=member)
+                holder = U.cls[f"{P}List"](items=(mix, U.cls[f"{P}Leaf"](v=k)))
+                dump0 = dump_node(U, holder)
+                ctx.evaluations += 1
+                ctx.count("user_dialect_roundtrips")
+                try:
+                    pl = getattr(holder, ser)(mashumaro_dialect=ByName)
+                    wire = pl if isinstance(pl, str) else json.dumps(pl, default=str)
+                    holder.detach()
+                    back = getattr(type(holder), de)(pl, mashumaro_dialect=ByName)
+                    ok_ = dump_node(U, back) == dump0 and ("color:" + member.name) in wire
+                    back.detach()
+                except Exception as e:  # noqa: BLE001
+                    ok_ = f"{type(e).__name__}: {e}"[:200]
+                if ok_ is not True:
+                    ctx.violation("dialect-roundtrip", f"{ser} / {de} with a user mashumaro dialect (and no other option) does not give the tree back", {"format": ser, "member": member.name, "got": ok_})
+                del mix, holder
+                collect()
     # ---- one payload object read several times (each time after the previous result is gone)
     if ctx.only_case is None:
         for k in range(12):
